@@ -425,14 +425,3 @@ Proof.
 Qed.
 End Example.
 
-Print Assumptions split_pieces_skip.
-Print Assumptions split_pieces_length.
-Print Assumptions split_pieces_shape_rec.
-Print Assumptions split_pieces_shape.
-Print Assumptions cut_spec.
-Print Assumptions split_pieces_tiling.
-Print Assumptions tiling_first.
-Print Assumptions tiling_last.
-Print Assumptions tiling_consecutive.
-Print Assumptions tiling_nondegenerate.
-Print Assumptions example_tiling.
